@@ -64,6 +64,8 @@ for f in prog.by_norm.values():
                 e = eb.call(b, t)
                 if e[0] == "call" and (e[1] or "").split("::")[-1] in ("min", "max") and len(e[3]) == 2 and ("cmp" in (e[1] or "")):
                     ks.add(binop_key("call:" + e[1].split("::")[-1], e[3][0], e[3][1]))
+                if e[0] == "call" and (e[1] or "").split("::")[-1] in ("lt", "le", "gt", "ge", "eq", "ne") and len(e[3]) == 2 and ("PartialOrd" in (e[1] or "") or "PartialEq" in (e[1] or "")):
+                    ks.add(binop_key("call:" + e[1].split("::")[-1], e[3][0], e[3][1]))
 head = subprocess.run(["git", "-C", "/repo", "rev-parse", "HEAD"], stdout=subprocess.PIPE, text=True).stdout.strip()
 json.dump({"repo_commit": head, "functions": sorted(fns), "fn_info": fns, "adts": adts, "binops": {k: sorted(v) for k, v in binops.items() if v}, "vars": {k: sorted(v) for k, v in varnames.items()}}, open(os.path.join(V, "sa", "known_fns.json"), "w"), indent=0, sort_keys=True)
 print(len(fns), "functions,", len(adts), "ADTs at", head)
